@@ -65,6 +65,9 @@ pub struct Node {
     pub agent: Agent,
     pub bookie: Bookie,
     pub opts_subs: Option<()>,
+    pub subs_cache: klukai_agent::api::public::pubsub::SharedMatcherBroadcastCache,
+    pub updates_cache: klukai_agent::api::public::update::SharedUpdateBroadcastCache,
+    pub tripwire: Tripwire,
     rx_bcast: CorroReceiver<BroadcastInput>,
     rx_apply: CorroReceiver<(ActorId, CrsqlDbVersion)>,
     rx_clear: CorroReceiver<(ActorId, RangeInclusive<CrsqlDbVersion>)>,
@@ -189,6 +192,9 @@ impl Node {
             (Some(std::mem::replace(&mut opts.rx_changes, rx)), Some(tx))
         };
 
+        let subs_cache = opts.subs_bcast_cache.clone();
+        let updates_cache = opts.updates_bcast_cache.clone();
+        let tripwire_clone = opts.tripwire.clone();
         let (bookie, handles) = klukai_agent::agent::verif::run(agent.clone(), opts, conf.perf)
             .await
             .map_err(|e| SimError::Harness(format!("run failed: {e:?}")))?;
@@ -200,6 +206,9 @@ impl Node {
             agent,
             bookie,
             opts_subs: None,
+            subs_cache,
+            updates_cache,
+            tripwire: tripwire_clone,
             rx_bcast,
             rx_apply,
             rx_clear,
@@ -257,7 +266,9 @@ impl Node {
                 moved = true;
                 self.clear_backlog.push(x);
             }
-            if !moved && pending_before <= 0 {
+            // tasks parked at a simulator gate are deliberately held back
+            let parked = verif::gate_parked("bcast") as i64;
+            if !moved && pending_before - parked <= 0 {
                 break;
             }
             if start.elapsed() > Duration::from_secs(60) {
